@@ -524,6 +524,12 @@ def show_shared(sh):
                 % (show_form(_form_from(sh['form2'])).replace('(f)', '(g)'),
                    {'direct': 'g used directly', 'instance': 'g is attribute m of a class and is looked up on an instance',
                     'class': 'g is attribute m of a class and is looked up on the class'}[sh['mode']]))
+    if kind == 'annotate':
+        return ('observed AFTER %s was applied on top of this decorated callable of f%s (%s)'
+                % (' then '.join('annotate(%s)' % ', '.join('%s=%d' % (name_of(n), v) for n, v in step) for step in sh['steps']),
+                   show_ps(tuple(tuple(p) for p in sh['ps0'])),
+                   {'direct': 'g used directly', 'instance': 'g is attribute m of a class and is looked up on an instance',
+                    'class': 'g is attribute m of a class and is looked up on the class'}[sh['mode']]))
     if kind == 'wraps':
         q = tuple(tuple(p) for p in sh['ps2'])
         return ('observed AFTER functools.%s copied the metadata of g2 = %s with f%s onto this decorated callable (%s)'
@@ -561,6 +567,50 @@ def build_derived(ps, form, sh):
     if owner is None:
         return lambda: g
     return lambda: getattr(owner, 'm')
+
+
+def build_annotate(form, sh):
+    """g = form(f) for f with parameters sh['ps0']; then modifiers.annotate(...)
+    is applied on top of g once per step; returns a getter for g."""
+    f = make_fn(tuple(tuple(p) for p in sh['ps0']), fresh=True)
+    with warnings.catch_warnings():
+        warnings.simplefilter('ignore')
+        g = apply_form(f, form)
+        for step in sh['steps']:
+            g = modifiers.annotate(**{name_of(n): v for n, v in step})(g)
+    if sh['mode'] == 'direct':
+        return lambda: g
+    cls = type('K', (object,), {'m': g})
+    owner = cls() if sh['mode'] == 'instance' else cls
+    return lambda: getattr(owner, 'm')
+
+
+def annotate_scenarios(ps, rng):
+    """(annotated ps, form, bound, scenario): annotate applied once or twice on
+    top of a decorated callable; the advertised signature is the rewrite of
+    the re-annotated parameters, the routing is unchanged."""
+    forms = _translator_forms(ps, rng)
+    named = [p[0] for p in ps if p[1] not in ('VP', 'VK')]
+    if not forms or not named:
+        return
+    has_self = bool(ps) and ps[0][1] in ('PO', 'PK')
+    for fm in rng.sample(forms, min(3, len(forms))):
+        sel = spec_select(ps, fm)
+        steps = []
+        for _ in range(rng.choice([1, 1, 2])):
+            chosen = rng.sample(named, rng.randint(1, min(2, len(named))))
+            steps.append([[n, rng.choice([50, 60, 70]) + n] for n in chosen])
+        ann = {}
+        for step in steps:
+            for n, v in step:
+                ann[n] = v
+        ps_ann = tuple((nm, k, de, ann.get(nm, an)) for nm, k, de, an in ps)
+        modes = ['direct', 'direct']
+        if has_self and ps[0][0] not in sel[0] and ps[0][0] not in sel[1]:
+            modes += ['class', 'instance']
+        mode = rng.choice(modes)
+        yield ps_ann, fm, mode == 'instance', {'kind': 'annotate', 'ps0': [list(p) for p in ps],
+                                                'steps': steps, 'mode': mode}
 
 
 def build_wraps(ps, form, sh):
@@ -613,6 +663,8 @@ def build_shared(ps, sh, form=None):
         return build_reuse(form, sh)
     if kind == 'wraps':
         return build_wraps(ps, form, sh)
+    if kind == 'annotate':
+        return build_annotate(form, sh)
     f = make_fn(ps, fresh=True)
     with warnings.catch_warnings():
         warnings.simplefilter('ignore')
@@ -973,6 +1025,16 @@ def run(ctx, rep):
                                              {'ps': [list(p) for p in ps], 'form': _form_to(form), 'bound': True, 'shared': shb}))
     rep.coverage['after_functools_wraps'] = nwraps
     rep.coverage['after_functools_wraps_instance_access_failing'] = nwraps_bound_fail
+    # ---- modifiers.annotate applied on top of a decorated callable (re-runs _prepare)
+    arng = ctx.rng('annotate')
+    nann = 0
+    for ps in (arng.sample(wcand, min(len(wcand), 150)) if ctx.quick else wcand):
+        for ps_ann, form, bound, sh in annotate_scenarios(ps, arng):
+            r = check_case(ps_ann, form, bound, rep, stats, defer=deferred, getter=build_shared(ps_ann, sh, form), shared=sh)
+            nann += 1
+            if r is not None and r[0] != 'skip' and srng.random() < 0.1:
+                model_cases.append((ps_ann, form, bound, r[0], r[1]))
+    rep.coverage['after_annotate_on_top'] = nann
     # ---- one decorator object applied to several functions
     rrng = ctx.rng('reuse')
     nreuse = 0
